@@ -54,6 +54,11 @@ pub struct Case {
     pub salt: u64,
     /// keep a clone of the receiver when dropping a consumer (false = let the receiver go with it)
     pub keep_rx_on_drop: bool,
+    /// the server names a new consumer with the tag of an earlier consumer of that channel which
+    /// has ended (AMQP only wants tags unique among *active* consumers; a server that derives
+    /// tags from queue names does this whenever a queue is consumed again)
+    #[serde(default)]
+    pub reuse_tags: bool,
 }
 
 #[derive(Clone, Debug, PartialEq)]
@@ -75,6 +80,9 @@ pub struct Broker {
     pub next_tag: u64,
     /// channel id -> reply code: answer the client's Channel.Close with our own Close + CloseOk
     pub cross_close: HashMap<u16, u16>,
+    pub reuse_tags: bool,
+    /// per channel: tags of consumers that have ended as far as the server is concerned
+    pub free_tags: HashMap<u16, Vec<String>>,
 }
 
 impl Responder for Broker {
@@ -109,8 +117,30 @@ impl Responder for Broker {
                     return;
                 }
             }
+            if self.reuse_tags {
+                match m {
+                    AMQPClass::Basic(Basic::Consume(_)) => {
+                        if let Some(tag) = self.free_tags.get_mut(ch).and_then(|v| v.pop()) {
+                            *seq += 1;
+                            io.send_method(*ch, AMQPClass::Basic(Basic::ConsumeOk(basic::ConsumeOk { consumer_tag: tag })));
+                            return;
+                        }
+                    }
+                    _ => {}
+                }
+            }
             if let Some(reply) = reply_for(self.salt, *ch, *seq, m) {
                 *seq += 1;
+                if let AMQPClass::Basic(Basic::CancelOk(ok)) = &reply {
+                    // our answer to the client's cancel. Only now may the tag be given to another
+                    // consumer: a Consumer handle sends Basic.Cancel at most once, so this handle
+                    // cannot cancel a later bearer of the tag by accident (a consumer that only
+                    // the *server* cancelled still has a handle that may do so, its tag stays taken)
+                    let v = self.free_tags.entry(*ch).or_default();
+                    if !v.contains(&ok.consumer_tag) {
+                        v.push(ok.consumer_tag.clone());
+                    }
+                }
                 io.send_method(*ch, reply);
             }
         }
@@ -162,6 +192,8 @@ pub fn exec(c: &Case) -> Outcome {
         extra_before_cancel_ok: HashMap::new(),
         next_tag: 0,
         cross_close: HashMap::new(),
+        reuse_tags: c.reuse_tags,
+        free_tags: HashMap::new(),
     };
     let mut sess = open_session(&ClientCfg::default(), ServerCfg::default(), vec![], broker);
     let mut conn = match sess.conn.take() {
@@ -638,8 +670,15 @@ pub fn exec(c: &Case) -> Outcome {
         Err((s, m)) => return Outcome::fail(s, m),
     };
     let chans = per_channel(&dec);
+    let mut want_cancels: std::collections::BTreeMap<(u16, String), usize> = Default::default();
     for (ch_idx, tag, _, _, _, cc, _, _) in &d.recs {
-        let chid = d.chan_ids[*ch_idx];
+        *want_cancels.entry((d.chan_ids[*ch_idx], tag.clone())).or_default() += if *cc { 1 } else { 0 };
+    }
+    if want_cancels.len() < d.recs.len() {
+        labels.push("consumer-tag-reused".to_string());
+    }
+    for ((chid, tag), want) in &want_cancels {
+        let (chid, want) = (*chid, *want);
         let n = chans
             .get(&chid)
             .map(|fs| {
@@ -648,7 +687,6 @@ pub fn exec(c: &Case) -> Outcome {
                     .count()
             })
             .unwrap_or(0);
-        let want = if *cc { 1 } else { 0 };
         if n != want {
             return Outcome::fail(
                 if n > want { "basic-cancel-sent-more-than-once" } else { "basic-cancel-not-sent" },
@@ -666,14 +704,21 @@ pub fn exec(c: &Case) -> Outcome {
             })
             .unwrap_or(0)
     };
-    for (chid, tag) in &d.server_cancels_with_reply {
-        if count_ok(*chid, tag) != 1 {
-            return Outcome::fail("server-cancel-not-answered-with-cancel-ok", format!("tag {} channel {}: {} CancelOk frames\nevents: {:?}", tag, chid, count_ok(*chid, tag), c.events));
-        }
-    }
+    // (a reused tag may have been cancelled by the server once per incarnation)
+    let mut want_oks: std::collections::BTreeMap<(u16, String), usize> = Default::default();
     for (chid, tag) in &d.server_cancels_nowait {
-        if count_ok(*chid, tag) != 0 {
-            return Outcome::fail("cancel-ok-sent-for-nowait-server-cancel", format!("tag {} channel {}\nevents: {:?}", tag, chid, c.events));
+        want_oks.entry((*chid, tag.clone())).or_default();
+    }
+    for (chid, tag) in &d.server_cancels_with_reply {
+        *want_oks.entry((*chid, tag.clone())).or_default() += 1;
+    }
+    for ((chid, tag), want) in &want_oks {
+        let n = count_ok(*chid, tag);
+        if n != *want {
+            return Outcome::fail(
+                if n < *want { "server-cancel-not-answered-with-cancel-ok" } else { "cancel-ok-sent-for-nowait-server-cancel" },
+                format!("tag {} channel {}: {} CancelOk frames, expected {}\nevents: {:?}", tag, chid, n, want, c.events),
+            );
         }
     }
     labels.sort();
@@ -701,12 +746,13 @@ fn strat(_t: Tier) -> BoxedStrategy<Case> {
         1 => Just(Ev::ClientCloseConnection),
         1 => (any::<u16>(), text()).prop_map(|(code, text)| Ev::ServerCloseConnection { code, text }),
     ];
-    (1u8..=3, vec(ev, 1..40), any::<u64>(), prop::bool::weighted(0.6))
-        .prop_map(|(channels, events, salt, keep_rx_on_drop)| Case {
+    (1u8..=3, vec(ev, 1..40), any::<u64>(), prop::bool::weighted(0.6), prop::bool::weighted(0.4))
+        .prop_map(|(channels, events, salt, keep_rx_on_drop, reuse_tags)| Case {
             channels,
             events,
             salt,
             keep_rx_on_drop,
+            reuse_tags,
         })
         .boxed()
 }
@@ -714,7 +760,7 @@ fn strat(_t: Tier) -> BoxedStrategy<Case> {
 pub fn parts() -> Vec<Box<dyn PartDyn>> {
     vec![Box::new(Part::<Case> {
         name: "e2e",
-        rule: "histories of up to 40 events (consume, deliver, client cancel with 0-3 deliveries sent before CancelOk, second cancel, drop (with or without a kept receiver; ordinarily or by a panic unwinding through the owner), forget, server cancel nowait/not, client/server channel close, client/server connection close) over 1-3 channels, driven by one thread with FIFO barriers so the broker script is the single source of order; oracle: per consumer the receiver yields exactly the model's deliveries in order, one terminal naming the first cause, then disconnect; one Basic.Cancel per cancelled/dropped consumer, CancelOk per server cancel iff not nowait; non-trivial = a delivery between cancel and CancelOk or >=2 candidate terminal causes for one consumer; distinct by case hash",
+        rule: "histories of up to 40 events (consume, deliver, client cancel with 0-3 deliveries sent before CancelOk, second cancel, drop (with or without a kept receiver; ordinarily or by a panic unwinding through the owner), forget, server cancel nowait/not, client/server channel close, client/server connection close) over 1-3 channels, in 40 % of the sessions against a server that gives a new consumer the tag of an ended consumer of that channel, driven by one thread with FIFO barriers so the broker script is the single source of order; oracle: per consumer the receiver yields exactly the model's deliveries in order, one terminal naming the first cause, then disconnect; one Basic.Cancel per cancelled/dropped consumer, CancelOk per server cancel iff not nowait; non-trivial = a delivery between cancel and CancelOk or >=2 candidate terminal causes for one consumer; distinct by case hash",
         cases: |t| t.pick(4000, 60_000),
         threads: 16,
         strategy: strat,
